@@ -256,10 +256,56 @@ impl Drop for Endpoint {
     }
 }
 
-fn closed_port() -> u16 {
-    // bind, read the port, close: nothing listens there afterwards
-    let l = TcpListener::bind(("127.0.0.1", 0)).expect("bind");
-    l.local_addr().unwrap().port()
+/// A loopback port that refuses connections *and stays reserved*: the socket is bound but never
+/// listens, so connect() gets ECONNREFUSED while no other process (a concurrently running
+/// worker's endpoint) can be handed the same ephemeral port. Binding, reading the port and
+/// closing would leave a window in which another worker's listener receives this run's request.
+struct RefusingPort {
+    fd: i32,
+    port: u16,
+}
+
+impl RefusingPort {
+    fn new() -> Option<RefusingPort> {
+        // SAFETY: plain socket calls on a fresh fd.
+        unsafe {
+            let fd = libc::socket(libc::AF_INET, libc::SOCK_STREAM | libc::SOCK_CLOEXEC, 0);
+            if fd < 0 {
+                return None;
+            }
+            let mut addr: libc::sockaddr_in = std::mem::zeroed();
+            addr.sin_family = libc::AF_INET as libc::sa_family_t;
+            addr.sin_port = 0;
+            addr.sin_addr = libc::in_addr {
+                s_addr: u32::from_ne_bytes([127, 0, 0, 1]),
+            };
+            if libc::bind(
+                fd,
+                &addr as *const _ as *const libc::sockaddr,
+                std::mem::size_of::<libc::sockaddr_in>() as u32,
+            ) != 0
+            {
+                libc::close(fd);
+                return None;
+            }
+            let mut out: libc::sockaddr_in = std::mem::zeroed();
+            let mut len = std::mem::size_of::<libc::sockaddr_in>() as u32;
+            if libc::getsockname(fd, &mut out as *mut _ as *mut libc::sockaddr, &mut len) != 0 {
+                libc::close(fd);
+                return None;
+            }
+            Some(RefusingPort {
+                fd,
+                port: u16::from_be(out.sin_port),
+            })
+        }
+    }
+}
+
+impl Drop for RefusingPort {
+    fn drop(&mut self) {
+        unsafe { libc::close(self.fd) };
+    }
 }
 
 fn git(root: &Path, args: &[&str]) -> Option<String> {
@@ -436,7 +482,15 @@ pub fn run_level_b(
     } else {
         start_endpoint(world.ai.clone()).ok()
     };
-    let port = endpoint.as_ref().map(|e| e.port).unwrap_or_else(closed_port);
+    let refusing = if endpoint.is_none() { RefusingPort::new() } else { None };
+    let port = match (&endpoint, &refusing) {
+        (Some(e), _) => e.port,
+        (None, Some(r)) => r.port,
+        (None, None) => {
+            harness_notes.push("could not reserve a refusing port".into());
+            1
+        }
+    };
 
     // ---- the process
     let cwd_rel = effective_cwd(world);
@@ -527,6 +581,7 @@ pub fn run_level_b(
             };
         }
     }
+    drop(refusing);
     if let Some(e) = endpoint {
         let log = e.log.clone();
         drop(e);
